@@ -21,13 +21,13 @@ class Ctx:
     def body(self, path):
         return self.facts.body(path)
 
-    def paths(self, fn, stop=(), pure_extra=(), max_paths=400, args=None, inline=True, max_depth=6, stop_trait_methods=()):
-        key = (fn if isinstance(fn, str) else fn['path'], tuple(sorted(stop)), tuple(sorted(pure_extra)), inline, repr(args), max_depth, tuple(sorted(stop_trait_methods)))
+    def paths(self, fn, stop=(), pure_extra=(), max_paths=400, args=None, inline=True, max_depth=6, stop_trait_methods=(), opaque_prefixes=()):
+        key = (fn if isinstance(fn, str) else fn['path'], tuple(sorted(stop)), tuple(sorted(pure_extra)), inline, repr(args), max_depth, tuple(sorted(stop_trait_methods)), tuple(opaque_prefixes))
         if key not in self._cache:
             body = self.facts.body(fn) if isinstance(fn, str) else fn
             if body is None:
                 return None
-            eng = T.Engine(self.facts, T.Policy(stop=stop, pure_extra=pure_extra, inline=inline, max_depth=max_depth, stop_trait_methods=stop_trait_methods), max_paths=max_paths)
+            eng = T.Engine(self.facts, T.Policy(stop=stop, pure_extra=pure_extra, inline=inline, max_depth=max_depth, stop_trait_methods=stop_trait_methods, no_inline_prefixes=opaque_prefixes), max_paths=max_paths)
             self._cache[key] = eng.summarize(body, args)
         return self._cache[key]
 
